@@ -406,6 +406,9 @@ pub fn expand(case: &DirCase, si: usize) -> Vec<EntryModel> {
             }
             let val = match (&p.kind, &p.col) {
                 (PKind::UInt, Col::Tree(b)) => Val::U(tree_dfs(n, *b as usize)[e].1 as u64),
+                // the root (first inserted) holds the plain value 0 instead of a deferred reference to itself: the column
+                // mixes immediate and deferred values, which the writer's sort has to compare with one another
+                (PKind::RefTo, Col::Tree(_)) if e == 0 => Val::U(0),
                 (PKind::RefTo, Col::Tree(b)) => Val::Ref(tree_dfs(n, *b as usize)[e].0),
                 (PKind::UInt, Col::Const) => Val::U(cval_u),
                 (PKind::UInt, Col::Small) => Val::U(rng.below(200)),
